@@ -79,7 +79,7 @@ def gen_source(rng, cfg):
             extra.append(rng.choice(["face_lonlat", "face_xyz"]))
         if rng.random() < 0.3:
             extra += ["edge_nodes", rng.choice(["edge_lonlat", "edge_xyz"])]
-        spec["dialect"] = {"lon360": rng.random() < 0.3, "extra": extra}
+        spec["dialect"] = {"lon360": rng.random() < 0.3, "extra": extra, "edge_flip": rng.random() < 0.5}
     elif r < 0.7:
         spec["prov"] = rng.choice(["vertices", "vertices_xyz"])
     else:
